@@ -27,6 +27,7 @@ def gen_cases(tier, seed):
         if c["op"] == "dropout":
             continue
         c["dtype"] = ["float64", "float32"][c["n"] % 2]
+        c["storage"] = ["plain", "strided", "plain", "transposed", "shared-base", "plain"][c["n"] % 6]
         sv = SPECIAL_V.get(c["op"])
         if sv:
             c["a"] = dict(c["a"], vclass=sv[c["n"] % len(sv)])
@@ -124,9 +125,10 @@ def run_case(ns, mon, case):
     counters[f"verdict:{verdict}"] = 1
     nontrivial = verdict != "value" or (ref is not None and np.asarray(ref).size > 1)
     vclass = a.get("vclass", "default")
-    key = (op.name, case["form"], json.dumps(a, sort_keys=True), case["dtype"], verdict) if nontrivial else None
+    key = (op.name, case["form"], json.dumps(a, sort_keys=True), case["dtype"], verdict, case.get("storage")) if nontrivial else None
     return {"key": key, "viol": viol, "counters": counters,
-            "cover": {"ops": [op.name], "forms": [f"{op.name}.{case['form']}"], "verdicts": [verdict], "argclasses": [f"{op.name}:{argclass}"]}}
+            "cover": {"ops": [op.name], "forms": [f"{op.name}.{case['form']}"], "verdicts": [verdict], "argclasses": [f"{op.name}:{argclass}"],
+                      "storage": [case.get("storage", "plain")]}}
 
 
 def setup(ns, tier, seed):
